@@ -181,3 +181,43 @@ def equal_cost_shortcut(ctx, clause: str):
     off = [s for s in br.body if isinstance(s, ast.Assign) and u(s.targets[0]) == "return_mistakes" and u(s.value) == "False"]
     col.ob("G16", clause, f"{where}::mistakes-table-off-for-equal-costs", len(off) == 1,
            "the equal-cost branch does not fall back to the distance table", rel, br.lineno)
+
+
+def empty_reference_convention(ctx, clause: str):
+    """With normalisation, an empty reference scores 0 for an empty hypothesis (prefix) and 1 otherwise: in every
+    `torch.where(<ref_len == 0>, X, <rate>)` of the kernel, X is the 0/1 indicator `<hypothesis length | prefix index>
+    > 0` (cast to the result's dtype), not the length itself."""
+    col, pkg = ctx.col, ctx.pkg
+    rel = pkg.module(MOD).relname
+    f = pkg.func(f"{MOD}::{KERNEL}")
+    where = f"{rel}::{KERNEL}"
+    rd = ReachingDefs(f.node)
+    pm = parent_map(f.node)
+    sites = 0
+    for c in own_calls(f.node):
+        if call_name(c) != "torch.where" or len(c.args) != 3:
+            continue
+        # the condition tests the reference length against zero
+        cond = c.args[0]
+        der = rd.derives(cond)
+        zero_cmp = any((isinstance(x, ast.Compare) and isinstance(x.ops[0], ast.Eq) and u(x.comparators[0]) == "0") or
+                       (isinstance(x, ast.Call) and isinstance(x.func, ast.Attribute) and x.func.attr == "eq" and x.args and u(x.args[0]) == "0")
+                       for x in der.nodes())
+        if not zero_cmp:
+            continue
+        if not any(u(t) == "norm" and pol for t, pol in guards_of(pm, c)):
+            continue
+        sites += 1
+        X = c.args[1]
+        ind = None
+        for x in ast.walk(X):
+            if isinstance(x, ast.Call) and isinstance(x.func, ast.Attribute) and x.func.attr in ("gt", "ne", "bool") and \
+                    (not x.args or u(x.args[0]) == "0"):
+                ind = x
+            if isinstance(x, ast.Compare) and isinstance(x.ops[0], (ast.Gt, ast.NotEq)) and u(x.comparators[0]) == "0":
+                ind = x
+        col.ob("G12", clause, f"{where}::empty-reference-scores-0-or-1@{'prefix' if 'arange' in u(X) else 'final'}", ind is not None,
+               f"for an empty reference the kernel substitutes `{u(X)[:100]}`, which is not a 0/1 indicator of a non-empty "
+               f"hypothesis (prefix): an empty reference must score 0 against an empty hypothesis and 1 otherwise, not the "
+               f"hypothesis length", rel, c.lineno, sample=u(X)[:120])
+    col.floor("empty_reference_sites", sites, 2)
